@@ -602,6 +602,8 @@ pub fn cases(run_seed: u64, tier: &str, scratch: &str) -> Vec<Value> {
     let wrap = ["", "\"", "'"][sw.usize(3)];
     base["csv"] = json!({"enc": sw.below(10), "trim": sw.chance(1, 2), "wrap": wrap});
     base["faults"] = json!([]);
+    // the (large) operation list is shared by all cases of this run: see engine::expand_shared
+    let shared_ops = base["ops"].clone();
     base["same_path"] = json!(api == "set_password" && sw.chance(1, 3));
     base["tmp_exists"] = json!(sw.chance(1, 5));
     let mut out: Vec<Value> = Vec::new();
@@ -611,6 +613,9 @@ pub fn cases(run_seed: u64, tier: &str, scratch: &str) -> Vec<Value> {
         let mut probe = base.clone();
         probe["sink"] = json!({"chunk": chunk, "mode": "none"});
         let o = execute_case(&probe, scratch);
+        out.push(json!({"__shared__": {"ops": shared_ops}}));
+        base.as_object_mut().unwrap().remove("ops");
+        probe.as_object_mut().unwrap().remove("ops");
         out.push(probe);
         let ncalls = o.record["sink_calls"].as_u64().unwrap_or(1).max(1);
         let idxs: Vec<u64> = if ncalls <= 40 || thorough {
@@ -638,8 +643,11 @@ pub fn cases(run_seed: u64, tier: &str, scratch: &str) -> Vec<Value> {
     }
 
     // fault-free probe
-    let probe = base.clone();
+    let mut probe = base.clone();
     let o = execute_case(&probe, scratch);
+    out.push(json!({"__shared__": {"ops": shared_ops}}));
+    base.as_object_mut().unwrap().remove("ops");
+    probe.as_object_mut().unwrap().remove("ops");
     out.push(probe);
     let by_kind = o.record["calls_by_kind"].clone();
     let reflen = o.record["reference_len"].as_u64().unwrap_or(0);
